@@ -127,6 +127,27 @@ def run(tier, seed):
         got = direct(text) if i % 3 else via_ctors(text, i % 4)
         traces.append([({'n': 'Init'}, {'s': tuple(cls), 'v': got})])
         texts.append(text)
+    # names everybody uses, with one thing wrong: something inserted, or an ill-formed element appended
+    def class_of(ch):
+        if ch.isascii() and ch.isalpha():
+            return 'L'
+        if ch in '0123456789':
+            return 'D'
+        return {'_': 'U', '.': '.', '-': '-', ':': ':', '/': '/'}.get(ch, 'O' if ch.isascii() else 'X')
+    literal = []
+    for base in ('org.freedesktop.DBus', 'org.freedesktop.DBus.Properties', 'org.freedesktop.DBus.Error.Failed',
+                 'org.freedesktop.DBus.ObjectManager', '/org/freedesktop/DBus', ':1.42', 'com.example.Service1'):
+        literal.append(base)
+        for tail in ('.', '..x', '.1a', '.a-b', '.\u00e9', '. x', '/', '.x' * 120, 'x' * 236):
+            literal.append(base + tail)
+        for pos in (0, 3, len(base) // 2, len(base) - 1):
+            for ins in ('.', '-', ':', '/', ' ', '\u00e9', '7', '..'):
+                literal.append(base[:pos] + ins + base[pos:])
+    for j, text in enumerate(literal):
+        got = direct(text) if j % 3 else via_ctors(text, j % 4)
+        traces.append([({'n': 'Init'}, {'s': tuple(class_of(ch) for ch in text), 'v': got})])
+        texts.append(text)
+    chk.notes['literal_names'] = len(literal)
     cc = 'CONSTANTS\n MaxLen = 1\n Classes = {"L", "D", "U", ".", "-", ":", "/", "X", "O"}\n'
     rej, stt = core.validate_traces('Validators', OBS, traces, {}, cfg_consts=cc, initpred='TraceInit', nproc=8)
     chk.states += stt['states']
